@@ -156,12 +156,30 @@ def rule_profiles(ctx):
     f = ctx.prog.func(f"{KI}:ks_kid", "F6-profiles")
     ctx.touch(f)
     chain = find_chain(f, "key_profiles")
-    ctx.require(chain is not None, "F6-profiles", f.qname, "profile dispatch not found")
-    br = lift_chain(chain, "key_profiles")
-    accepted = [v for b in br if b.kind in ("in", "eq") for v in b.values]
-    ctx.check(any(b.kind == "else" and b.raises for b in br), "F6-profiles", "ks_kid rejects unknown names", func=f,
-              construct="profiles-else", msg="unknown profile names must raise")
-    ctx.check(len(br) >= 4, "F6-profiles", "three profile sets", func=f, construct="profile-sets", msg="three profile sets expected")
+    if chain is not None and not any(isinstance(c, ast.Compare) and isinstance(c.ops[0], (ast.NotIn, ast.In)) and isinstance(c.comparators[0], ast.Name)
+                                     for c in ast.walk(chain.test)):
+        br = lift_chain(chain, "key_profiles")
+        accepted = [v for b in br if b.kind in ("in", "eq") for v in b.values]
+        ctx.check(any(b.kind == "else" and b.raises for b in br), "F6-profiles", "ks_kid rejects unknown names", func=f,
+                  construct="profiles-else", msg="unknown profile names must raise")
+        ctx.check(len(br) >= 4, "F6-profiles", "three profile sets", func=f, construct="profile-sets", msg="three profile sets expected")
+    else:
+        # the same dispatch as a table: `if key_profiles not in TABLE: raise ..` and `key_profiles = TABLE[key_profiles]`
+        look = [n for n in own_nodes(f.node) if isinstance(n, ast.Subscript) and isinstance(n.ctx, ast.Load) and isinstance(n.value, ast.Name)
+                and norm(n.slice) == "key_profiles"]
+        ctx.require(len(look) >= 1, "F6-profiles", f.qname, "profile dispatch not found")
+        dnode = f.module.defs.get(look[0].value.id)
+        dval = dnode.value if isinstance(dnode, ast.Assign) else None
+        ctx.require(isinstance(dval, ast.Dict) and dval.keys and all(isinstance(k, ast.Constant) for k in dval.keys), "F6-profiles", f.qname,
+                    f"profile table `{look[0].value.id}` is not a dict literal with constant keys")
+        tab = {k.value: norm(v) for k, v in zip(dval.keys, dval.values)}
+        accepted = list(tab.keys())
+        guard = [i for i in own_nodes(f.node) if isinstance(i, ast.If) and any(isinstance(c, ast.Compare) and isinstance(c.ops[0], ast.NotIn) and norm(c.left) == "key_profiles"
+                                                                                   and norm(c.comparators[0]) == look[0].value.id for c in ast.walk(i.test))
+                 and any(isinstance(x, ast.Raise) for x in i.body)]
+        ctx.check(bool(guard), "F6-profiles", "ks_kid rejects unknown names", func=f, construct="profiles-else", msg="unknown profile names must raise")
+        ctx.check(len(set(tab.values())) >= 3, "F6-profiles", "three profile sets", func=f,
+                  construct="profile-sets", msg="three profile sets expected")
     for v in valid:
         ctx.check(v in accepted, "F6-profiles", f"validator name {v!r} dispatched", func=f, construct=f"accepted-not-dispatched:{v}",
                   msg=f"estimate_key accepts key_profiles={v!r} (VALID_KEY_PROFILES) but ks_kid has no branch for it: "
